@@ -53,10 +53,10 @@ type aliasOp[T any] struct {
 	name       string
 	nargs      int
 	writesRecv bool
-	writesArg  int                                                  // index of an argument that is also written (Swap), or 0
-	extra      func(r *gen.Rand) any                                // additional by-value parameters, drawn once per case
-	run        func(pos []*T, extra any) (ret *T, out string)       // out: non-pointer results (ints, bytes), compared too
-	ok         func(vals []*T, extra any) bool                      // optional precondition on the drawn values
+	writesArg  int                                            // index of an argument that is also written (Swap), or 0
+	extra      func(r *gen.Rand) any                          // additional by-value parameters, drawn once per case
+	run        func(pos []*T, extra any) (ret *T, out string) // out: non-pointer results (ints, bytes), compared too
+	ok         func(vals []*T, extra any) bool                // optional precondition on the drawn values
 }
 
 func runAlias[T any](c *Ctx, r *gen.Rand, at aliasType[T], op aliasOp[T], part []int, opIdx int) {
